@@ -168,9 +168,21 @@ func c07SendCloseExclusion(c *Check, P string, r *GCRoles) {
 		k := fmt.Sprintf("send#%d", i)
 		ok := GuardedBy(D, s.Ins, notClosed)
 		if InLoop(s.Ins) {
-			ok = ok && !ReachWithout(s.Ins, s.Ins, closedTests...)
+			// the flag is written only under the sending mutex: while the deliver function keeps that mutex (no unlock but
+			// the deferred one) one test before the loop covers every iteration; otherwise it is re-tested per iteration
+			earlyUnlock := false
+			for _, cl := range CallsIn(D) {
+				if op, isOp := r.LA.opOf(cl); isOp && op.mode == 'w' && op.id == r.idSending {
+					if _, isDefer := cl.(*ssa.Defer); !isDefer {
+						earlyUnlock = true
+					}
+				}
+			}
+			if earlyUnlock {
+				ok = ok && !ReachWithout(s.Ins, s.Ins, closedTests...)
+			}
 		}
-		c.Report(ok, P+".O2", "SEND-ONLY-IF-OPEN", D, s.Ins.Pos(), k, "every send is preceded, in the same iteration, by the not-closed edge of a test of the closed flag")
+		c.Report(ok, P+".O2", "SEND-ONLY-IF-OPEN", D, s.Ins.Pos(), k, "every send is preceded by the not-closed edge of a test of the closed flag made in the same critical section of the sending mutex")
 		for _, t := range closedTests {
 			// flag loaded under the mutex, and the mutex is not released between the test and the send
 			okHeld := r.LA.Held(t)[r.idSending] == 'W'
@@ -377,6 +389,14 @@ func c07ClosedChecks(c *Check, P string, r *GCRoles) {
 		}
 		for _, f := range Callers([]*ssa.Function{Pub}, r.Fan) {
 			c.Report(GuardedBy(Pub, f, closedFalse), P+".O5", "PUBLISH-NOTHING-WHEN-CLOSED", Pub, f.Pos(), "fan-out", "nothing is sent unless the closed check answered 'open'")
+		}
+		// Close keeps the closed lock while it waits for the teardown goroutines, and those take the subscribers lock and
+		// the topic mutex: whoever holds one of these must not ask for the closed lock
+		for _, ck := range chk {
+			held := r.LA.Held(ck)
+			_, s := held[r.idSubs]
+			_, t := held[r.idTopic]
+			c.Report(!s && !t, P+".O5", "CLOSED-CHECK-BEFORE-LOCKS", Pub, ck.Pos(), "closed check in Publish", "Publish asks whether the Pub/Sub is closed before it takes the subscribers lock and the topic mutex (asked while holding them it waits for Close, which waits for the teardowns, which wait for these locks)", "held: "+held.String())
 		}
 		// the reader takes the lock
 		for _, ld := range FieldLoads(r.IsClosed, r.Closed) {
@@ -594,6 +614,13 @@ func c07TeardownOrder(c *Check, id string, r *GCRoles) {
 		_, t := held[r.idTopic]
 		c.Report(!s && !t, id, "CLOSE-SUBSCRIPTION-BEFORE-LOCKS", T, sc.Pos(), "subscription close call in the teardown",
 			"the subscription is closed (its closing signal raised) before the teardown takes the subscribers lock / topic mutex: a blocking Publish that holds them while waiting for this subscription's ack can only be released by that signal", "held: "+held.String())
+		// "before", not merely "outside": no acquisition of these locks precedes the close call
+		for _, cl := range CallsIn(T) {
+			if op, isOp := r.LA.opOf(cl); isOp && (op.mode == 'W' || op.mode == 'R') && (op.id == r.idSubs || op.id == r.idTopic) {
+				c.Report(!ReachAfter(cl, nil)[sc], id, "CLOSE-SUBSCRIPTION-BEFORE-LOCKS", T, cl.Pos(), "lock acquisition in the teardown ("+op.id+")",
+					"the teardown asks for this lock only after it closed the subscription (asking first, it can wait forever for a blocking Publish that waits for this subscription)")
+			}
+		}
 	}
 	// GoChannel.Close: a concurrent second Close must not return while the first still waits
 	Cl := r.Close
@@ -666,6 +693,31 @@ func c07Decorator(c *Check, P string) {
 	if !c.Floor(P+".O7", "decorator wait group", b2i(wgF != nil), 1) {
 		return
 	}
+	// the decorator's signals belong to one decorated subscriber: made where the subscriber value is built
+	for _, f := range WithAnon(ctor) {
+		AllInstrs(f, func(in ssa.Instruction) {
+			st, ok := in.(*ssa.Store)
+			if !ok {
+				return
+			}
+			fld, base := FieldOf(st.Addr)
+			isSig := false
+			for _, sf := range sigs {
+				if sf == fld {
+					isSig = true
+				}
+			}
+			if !isSig {
+				return
+			}
+			okFresh := AllOrigins(st.Val, func(o ssa.Value) bool {
+				mk, isMk := o.(*ssa.MakeChan)
+				al, isAl := base.(*ssa.Alloc)
+				return isMk && isAl && mk.Parent() == al.Parent()
+			})
+			c.Report(okFresh, P+".O7", "SIGNAL-PER-SUBSCRIBER", f, st.Pos(), "store to "+fld.Name(), "each decorated subscriber gets its own closing signal, made together with it (one decorator value is applied to every handler's subscriber: a shared signal would stop the others and be closed twice)")
+		})
+	}
 	// pump goroutines
 	var pumps []*ssa.Function
 	AllInstrs(sub, func(in ssa.Instruction) {
@@ -680,6 +732,16 @@ func c07Decorator(c *Check, P string) {
 					}
 				}
 				c.Report(okAdd, P+".O7", "PUMP-COUNTED", sub, g.Pos(), "go pump", "the pump goroutine is counted in the decorator's wait group before it starts")
+				// … and nothing is counted without a pump that will signal Done
+				for _, a := range CallsTo(sub, nWGAdd) {
+					if f2, _ := FieldOf(Receiver(a)); f2 != wgF {
+						continue
+					}
+					re := ReachAfter(a, NewCut().AddInstrs(g))
+					for _, ret := range Returns(sub) {
+						c.Report(!re[ret], P+".O7", "PUMP-COUNT-MATCHED", sub, a.Pos(), "wait group Add", "every path from the Add to a return of Subscribe starts the pump (an Add without a pump, e.g. on the error return of the inner Subscribe, makes Close wait forever)")
+					}
+				}
 			}
 		}
 	})
@@ -770,8 +832,8 @@ func c07Decorator(c *Check, P string) {
 					if !cs.Send && ck.Kind == "field" && raised[ck.Field] {
 						found = true
 					}
-					if !cs.Send && ck.Kind == "ctx.Done" {
-						found = true
+					if !cs.Send && !(ck.Kind == "field" && raised[ck.Field]) {
+						c.Report(false, P+".O7", "PUMP-DROPS-ONLY-AFTER-CLOSE", pump, op.Ins.Pos(), k, "the pump gives up handing over a message it took from the inner subscription only on the decorator's own closing signal, which Close raises after the inner Close returned — not on a context or timer (the message would be dropped, neither handled nor settled, while its subscription is still open)")
 					}
 				}
 				c.Report(found, P+".O7", "PUMP-ESCAPABLE", pump, op.Ins.Pos(), k, "the pump's blocking select has a case on a signal that Close raises before it waits")
